@@ -14,6 +14,13 @@ resized / emptied again, so that series state is reached through histories too.
   json   : to_json/from_json round trip, the parsed document vs the model's, text (in)equality after a
            single-cell / series-sample / depth / name / row-order perturbation of a copy, relatedness probes;
   pandas : DataFrame / Series content row by row; a series cell must come back as its row of numbers.
+  reser  : ONE object serialised again and again (to_json, pickle.dumps / io.writepickle, to_pandas) with one in-place
+           edit between two serialisations and NOTHING else in between (no table is constructed, no other call of the
+           library; everything is read back only after the last serialisation): cell writes by index / slice / list /
+           selection / Row, series sample / sample-slice / row writes, setallrows, depth change, column deletion by
+           del item / attribute / object, (re-)typing by item and by attribute, new columns, aliasing, rename, resize,
+           row deletion, sorted flag.  Every text / payload is judged against the object graph dumped right after it
+           was produced, and consecutive texts must differ when the documents do.
 """
 import json
 import math
@@ -42,6 +49,13 @@ TWINS_BEFORE = ['new', 'unpickle', 'json']
 TWINS_AFTER = ['new', 'new', 'unpickle', 'json', 'copy']
 SER_VALS = [0.0, 1.0, -2.5, float('nan'), 1e10, 0.5, float('inf'), float('-inf'), -0.0, 1e-300, 3.25]
 DEPTHS = [1, 2, 3, 4, 5, 5, 6, 8, 8, 50]
+# in-place operations only (nothing here returns a new table)
+EDIT_WEIGHTS = {'new': 0, 'setcolkind': 3, 'setcol': 3, 'setcolfromcol': 2, 'setcell': 16, 'setlength': 3, 'delrows': 2,
+                'delcol': 2, 'rename': 3, 'setsorted': 2, 'setcolfromslice': 1}
+SEL_WEIGHTS = {'select': 3, 'slice': 3, 'getrows': 3}
+RESER_WHAT = ['json', 'json', 'pickle', 'both', 'both', 'all']
+SER_EDITS = ['sample', 'sample', 'sample', 'samples', 'colsample', 'row', 'rows', 'setallrows', 'setallrows', 'setallrows1',
+             'depth', 'depth', 'depth', 'delcol', 'delcol', 'rename', 'retype', 'retype', 'reseries']
 
 
 def _filedir():
@@ -236,6 +250,124 @@ def gen_post(rng, dm):
     return o
 
 
+# ------------------------------------------------------------------ in-place edits of one table (family `reser`)
+def _hx(x):
+    return float(x).hex()
+
+
+def gen_sel(rng, dm):
+    """a table derived from dm BEFORE the first serialisation (operand of selection-addressed writes)"""
+    o = histgen.gen_op(rng, _One(dm), SEL_WEIGHTS, bad_rate=0.0, max_pool=99, max_rows=9)
+    if o['op'] == 'new':
+        o = {'op': 'slice', 't': 0, 'a': None, 'b': max(1, len(dm) // 2)}
+    return o
+
+
+def gen_edit(rng, r, view):
+    """One in-place edit of the table view[0]; table references are positions in `view` (0 = the table, 1.. = the
+    selections taken from it before the first serialisation).  Either one of the in-place operations of the shared
+    alphabet (world.Runner.apply) or {'op': 'x', 'how': ...}: the edits the alphabet lacks (series samples, setallrows,
+    depth, deleting / renaming / re-typing a series column, typing by attribute, a new series column)."""
+    dm = r.pool[view[0]]
+    n = len(dm)
+    sers = [nm for nm, col in dm._cols.items() if is_series(col)]
+    plain = [nm for nm, kd in histgen.col_kinds(dm) if kd]
+    if sers and rng.random() < 0.5:
+        name = rng.choice(sers)
+        d = dm._cols[name].depth
+        how = rng.choice(SER_EDITS)
+        v = _hx(rng.choice([7.5, float('nan'), float('inf'), -1.0, 0.0, 70.5, 1e-300]))
+        i = rng.randrange(n) if n and rng.random() < 0.95 else n
+        i = i - n if n and rng.random() < 0.2 else i
+        j = rng.randrange(d) if d else 0
+        if how == 'sample':
+            return {'op': 'x', 'how': how, 'name': name, 'i': i, 'j': j - d if rng.random() < 0.2 else j, 'v': v}
+        if how == 'samples':
+            return {'op': 'x', 'how': how, 'name': name, 'i': i, 'a': rng.choice([None, 0, 1, j]),
+                    'b': rng.choice([None, d, j + 1, -1]), 'v': v}
+        if how == 'colsample':
+            return {'op': 'x', 'how': how, 'name': name, 'j': j, 'v': v}
+        if how == 'row':
+            return {'op': 'x', 'how': how, 'name': name, 'i': i,
+                    'vs': [_hx(rng.choice(SER_VALS)) for _ in range(d if rng.random() < 0.9 else d + 1)]}
+        if how == 'rows':
+            return {'op': 'x', 'how': how, 'name': name, 'a': rng.choice([None, 0, 1]), 'b': rng.choice([None, 1, n, -1]), 'v': v}
+        if how == 'setallrows':
+            return {'op': 'x', 'how': how, 'name': name, 'vs': [_hx(rng.choice(SER_VALS)) for _ in range(d)]}
+        if how == 'setallrows1':
+            return {'op': 'x', 'how': 'setallrows', 'name': name, 'v': v}
+        if how == 'depth':
+            return {'op': 'x', 'how': how, 'name': name, 'd': max(0, d + rng.choice([1, 2, -1, -1, -2, 0] if d > 1 else [1, 2, 3]))}
+        if how == 'delcol':
+            return {'op': 'delcol', 't': 0, 'name': name, 'how': rng.choice(['item', 'attr', 'obj'])}
+        if how == 'rename':
+            return {'op': 'rename', 't': 0, 'old': name, 'new': rng.choice(['e', 'f', 'a', 'zz'])}
+        if how == 'retype':
+            if rng.random() < 0.5:
+                return {'op': 'setcolkind', 't': 0, 'name': name, 'kind': rng.choice(world.KINDS)}
+            return {'op': 'x', 'how': 'settype', 'name': name, 'kind': rng.choice(world.KINDS)}
+        return {'op': 'x', 'how': 'newseries', 'name': name, 'd': rng.choice([1, 2, d, d + 1]), 'dnan': rng.random() < 0.7}
+    c = rng.random()
+    if c < 0.12:
+        name = rng.choice(histgen.NAMES + plain + ['e'])
+        if rng.random() < 0.75:
+            # dm.<name> = IntColumn: a new empty column, or an existing one re-typed (its cells reset)
+            return {'op': 'x', 'how': 'settype', 'name': name, 'kind': rng.choice(world.KINDS)}
+        return {'op': 'x', 'how': 'newseries', 'name': rng.choice(['s', 'w', name]), 'd': rng.choice(DEPTHS[:-1]),
+                'dnan': rng.random() < 0.7}
+    if plain and c < 0.2:
+        return {'op': 'delcol', 't': 0, 'name': rng.choice(plain), 'how': rng.choice(['item', 'attr', 'obj'])}
+    for _ in range(40):
+        o = histgen.gen_op(rng, _View(r, [(p, p) for p in view]), EDIT_WEIGHTS, bad_rate=0.04, max_pool=99, max_rows=9)
+        if o.get('t') == 0 and o['op'] != 'new':
+            return o
+    return {'op': 'setsorted', 't': 0, 'b': not dm._sorted}
+
+
+def edit_name(e):
+    if e['op'] == 'x':
+        return e['how']
+    return e['op'] + ('-' + e['addr']['k'] if 'addr' in e else '') + ('-' + e['how'] if 'how' in e else '')
+
+
+def apply_x(dm, e):
+    """the edits of gen_edit that are not in the shared alphabet; nothing but the edit itself is executed"""
+    from datamatrix import SeriesColumn
+    how = e['how']
+    with warnings.catch_warnings():
+        warnings.simplefilter('ignore')
+        try:
+            if how == 'settype':
+                setattr(dm, e['name'], world.coltype(e['kind']))
+                return 'OkUnit'
+            if how == 'newseries':
+                dm[e['name']] = SeriesColumn(depth=e['d'], defaultnan=bool(e.get('dnan', True)))
+                return 'OkUnit'
+            col = dm[e['name']]
+            v = float.fromhex(e['v']) if 'v' in e else [float.fromhex(x) for x in e['vs']]
+            if how == 'sample':
+                col[e['i'], e['j']] = v
+            elif how == 'samples':
+                col[e['i'], e['a']:e['b']] = v
+            elif how == 'colsample':
+                col[:, e['j']] = v
+            elif how == 'row':
+                col[e['i']] = v
+            elif how == 'rows':
+                col[e['a']:e['b']] = v
+            elif how == 'setallrows':
+                col.setallrows(v)
+            elif how == 'depth':
+                col.depth = e['d']
+            else:
+                raise AssertionError(e)
+        except AssertionError:
+            raise
+        except Exception as ex:         # noqa: BLE001
+            return '(Err %s)' % pyobs.exn_name(ex)
+    return 'OkUnit'
+
+
 # ------------------------------------------------------------------ literals
 def pcell(x):
     if x is None:
@@ -418,9 +550,22 @@ class C17:
             '(json) to_json/from_json round trip, the text parsed independently, the text of a copy perturbed in one '
             'cell / one series sample / the series depth / one name / the row order / not at all; a fresh table and a '
             'second from_json right after; relatedness probes. (pandas) DataFrame and each Series read back row by '
-            'row, series cells as rows of numbers. A case is non-trivial when the table has rows and columns '
-            '(pickle: and at least one follow-up operation succeeded; json text: the texts differ). Distinct by '
-            '(history, seed, table, series, post-operations, mode, twins, follow-ups).')
+            'row, series cells as rows of numbers. (reser) ONE object is serialised (to_json and/or pickle.dumps '
+            'protocols 0-5 / io.writepickle, in a sixth of the cases also to_pandas), edited in place, serialised '
+            'again, 1-3 times, with NOTHING between an edit and the next serialisation and nothing but the dump of '
+            'the object graph (which constructs no table: the id counter is checked) before the next edit; the '
+            'operands of selection-addressed writes are taken before the first serialisation and everything is read '
+            'back only after the last one. Edits: cell writes by index / slice / list / selection / Row (also Rows '
+            'collected by iteration) incl. refused ones, whole-column assignment, aliasing, slices of columns, '
+            '(re-)typing by item and by attribute, new series columns, deletion by del item / attribute / object, '
+            'rename, resize, row deletion, sorted flag, and for series columns one sample, a slice of samples, one '
+            'sample of every row, a row, a slice of rows, setallrows, depth up / down / to 0, deletion, rename, '
+            're-typing. Every text must parse to the document of the object graph dumped right after it was produced, '
+            'from_json / pickle.loads / io.readpickle of it must give that table, and two consecutive texts must '
+            'differ when the documents do. A case is non-trivial when the table has rows and columns '
+            '(pickle: and at least one follow-up operation succeeded; json text: the texts differ; reser: an edit '
+            'changed the object graph). Distinct by (history, seed, table, series, post-operations, mode, twins, '
+            'follow-ups / selections, edits).')
     trusted_base = [
         'Coq 8.16.1 kernel (coqc; vm_compute for evaluating cases; no native_compute)',
         'translator /verif/translate/gen_persist.py (ast -> Gen/KPersist.v) incl. its pinned statement lists and the '
@@ -842,6 +987,199 @@ class C17:
             'tags': ['pandas', 'rows%d' % min(len(dm), 9)] + self._tags(dm, inp) + (['orig-malformed'] if problems else []),
         }
 
+    def _frame_lits(self, dm):
+        """to_pandas(dm) and to_pandas(column) read back at once (a frame may hold views of the table's arrays);
+        returns (frame literal, series literal, python-side failure)"""
+        from datamatrix import convert as cnv
+        import pandas as pd
+        df = cnv.to_pandas(dm)
+        if not isinstance(df, pd.DataFrame):
+            return '[]', '[]', 'to_pandas returned a %s' % type(df).__name__
+        fail = None
+        frame = ['(%s, %s)' % (L.string(str(name)), L.lst(xpcell(x) for x in list(df.iloc[:, j])))
+                 for j, name in enumerate(df.columns)]
+        if len(dm._cols) and len(df) != len(dm):
+            fail = 'DataFrame has %d rows, the DataMatrix %d' % (len(df), len(dm))
+        series = []
+        for name in dm._cols:
+            ser = cnv.to_pandas(dm[name])
+            if not isinstance(ser, pd.Series):
+                fail = fail or 'to_pandas(column) returned a %s' % type(ser).__name__
+                continue
+            series.append('(%s, %s)' % (L.string(name), L.lst(xpcell(x) for x in list(ser))))
+        return L.lst(frame), L.lst(series), fail
+
+    def run_reser(self, inp):
+        """The same object serialised, edited in place, serialised again, ... : every text / payload must describe the
+        table as it is when it is produced."""
+        from datamatrix import convert as cnv, io
+        r, t, dm, post = self.setup(inp)
+        M = _M()
+        what = inp.get('what', 'both')
+        mode = inp.get('mode', 'p2')
+        rng = random.Random(inp.get('eseed', 0))
+        # operands of the edits exist before the first serialisation
+        sels = inp.get('sels')
+        gen_s = sels is None
+        sels = [] if gen_s else sels
+        view = [t]
+        k = 0
+        while (gen_s and k < inp.get('nsels', 0)) or (not gen_s and k < len(sels)):
+            if gen_s:
+                sels.append(gen_sel(rng, dm))
+            k += 1
+            _out, new = r.apply(dict(sels[k - 1], t=t), seed=inp['seed'] * 17 + k)
+            if new:
+                view.append(len(r.pool) - 1)
+        used = sorted(set(r.fam(x) for x in r.pool))
+        self._stage = 'edited'
+        states = []
+        pyfail = None
+        noisy = False
+
+        def serialise(label):
+            """serialise FIRST (nothing between the edit and this), then dump what the table is at this moment"""
+            nonlocal pyfail, noisy
+            st = {'label': label}
+            c0 = M._id
+            for kind in (('json', 'pickle', 'pandas') if inp.get('jfirst', True) else ('pickle', 'json', 'pandas')):
+                try:
+                    if kind == 'json' and what in ('json', 'both', 'all'):
+                        st['text'] = cnv.to_json(dm)
+                        if not isinstance(st['text'], str):
+                            raise TypeError('to_json returned a %s' % type(st['text']).__name__)
+                    elif kind == 'pickle' and what in ('pickle', 'both', 'all'):
+                        if mode.startswith('p'):
+                            st['payload'] = pickle.dumps(dm, int(mode[1:]))
+                        else:
+                            path = os.path.join(_filedir(), 'sub', 'e%d.pkl' % len(states))
+                            if mode == 'file':
+                                io.writepickle(dm, path)
+                            else:
+                                io.writepickle(dm, path, protocol=int(mode[4:]))
+                            st['path'] = path
+                    elif kind == 'pandas' and what == 'all':
+                        st['frame'], st['series'], fail = self._frame_lits(dm)
+                        if fail:
+                            pyfail = pyfail or '%s: %s' % (label, fail)
+                except Exception as e:      # noqa: BLE001
+                    st['raised'] = '%s: serialising (%s) raised %r' % (label, kind, e)
+            c1 = M._id
+            probs = []
+            st['lit'] = dump_x(r, dm, probs)
+            r.probes(dm, probs)
+            st['problems'] = probs
+            if M._id != c1:
+                noisy = True            # the harness' own reads must not construct tables
+            if st.get('raised') and not probs:
+                pyfail = pyfail or st['raised']
+            states.append(st)
+
+        serialise('first serialisation')
+        edits = inp.get('edits')
+        gen_e = edits is None
+        edits = [] if gen_e else edits
+        outcomes = []
+        k = 0
+        while (gen_e and k < inp.get('nedits', 0)) or (not gen_e and k < len(edits)):
+            if gen_e:
+                edits.append(gen_edit(rng, r, view))
+            e = edits[k]
+            k += 1
+            if e['op'] == 'x':
+                out = apply_x(dm, e)
+            elif not refs_ok(e, len(view)) or e.get('t') != 0:
+                outcomes.append('skipped')
+                continue
+            else:
+                out, new = r.apply(subst(e, [(p, p) for p in view], 0), seed=inp['seed'] * 19 + k)
+                if new:
+                    raise AssertionError('an edit returned a table: %r' % (e,))
+            outcomes.append(out)
+            serialise('after edit %d (%s)' % (k, edit_name(e)))
+        # only now is anything read back
+        roots = []
+        problems = []
+        oracle, model = [], []
+        binds = []
+        changed = 0
+        for i, st in enumerate(states):
+            a = 's%d' % i
+            binds.append((a, st['lit']))
+            bad = bool(st['problems'])          # the dump of a malformed table is lossy: outside the L1 model
+            if i and 'text' in st and 'text' in states[i - 1]:
+                same = st['text'] == states[i - 1]['text']
+                oracle.append('xtext_case s%d %s %s' % (i - 1, a, L.boolean(same)))
+                if not bad and not states[i - 1]['problems']:
+                    model.append('m_xtext s%d %s %s' % (i - 1, a, L.boolean(same)))
+            if i and st['lit'].split('x_rowid', 1)[1] != states[i - 1]['lit'].split('x_rowid', 1)[1]:
+                changed += 1
+            if st.get('raised'):
+                continue
+            try:
+                if 'text' in st:
+                    doc = doc_lit(st['text'])
+                    if doc is None:
+                        pyfail = pyfail or '%s: JSON text is not an object with the keys rowid, columns' % st['label']
+                        doc = '([], [])'
+                    rest = cnv.from_json(st['text'])
+                    if not isinstance(rest, world.DataMatrix):
+                        raise TypeError('from_json returned a %s' % type(rest).__name__)
+                    roots.append(r.fam(rest))
+                    pr = []
+                    binds.append(('j%d' % i, dump_x(r, rest, pr)))
+                    r.probes(rest, pr)
+                    problems.extend('%s, from_json: %s' % (st['label'], p) for p in pr if p not in st['problems'])
+                    oracle.append('xjson_case %s %s j%d' % (nats(used), a, i))
+                    if not bad:
+                        model.append('m_xjson_doc %s %s' % (a, doc))
+                        model.append('m_xfrom_json %s j%d' % (a, i))
+                if 'payload' in st or 'path' in st:
+                    rest = pickle.loads(st['payload']) if 'payload' in st else io.readpickle(st['path'])
+                    if not isinstance(rest, world.DataMatrix):
+                        raise TypeError('unpickling returned a %s' % type(rest).__name__)
+                    roots.append(r.fam(rest))
+                    pr = []
+                    binds.append(('p%d' % i, dump_x(r, rest, pr)))
+                    r.probes(rest, pr)
+                    problems.extend('%s, unpickled: %s' % (st['label'], p) for p in pr if p not in st['problems'])
+                    oracle.append('xpickle_case %s %s p%d []' % (nats(used), a, i))
+                    if not bad:
+                        model.append('m_xpickle %s p%d' % (a, i))
+                if 'frame' in st and not bad:
+                    oracle.append('xpandas_case %s %s %s' % (a, st['frame'], st['series']))
+                    model.append('m_xpandas %s %s %s' % (a, st['frame'], st['series']))
+            except Exception as e:      # noqa: BLE001
+                pyfail = pyfail or '%s: what was written cannot be read back: %r' % (st['label'], e)
+        oracle.append('fresh_roots %s %s' % (nats(used), nats(roots)))
+        if problems and not pyfail:
+            pyfail = 'python-side probes: ' + '; '.join(problems[:3])
+        if noisy:
+            raise AssertionError('harness: dumping a table moved the id counter')
+
+        def term(parts):
+            body = ' && '.join('(%s)' % p for p in parts) or 'true'
+            for nm, lit in reversed(binds):
+                body = 'let %s := %s in %s' % (nm, lit, body)
+            return '(%s)' % body
+        inp2 = dict(inp, post=post, sels=sels, edits=edits)
+        for key in ('npost', 'nsels', 'nedits'):
+            inp2.pop(key, None)
+        return {
+            'input': inp2,
+            'observed': {'rows': len(dm), 'columns': list(dm._cols.keys()), 'edit_outcomes': outcomes,
+                         'texts': [st.get('text', '')[:160] for st in states][:4],
+                         'malformed': [st['problems'][:1] for st in states], 'problems': problems[:4]},
+            'pyfail': pyfail, 'oracle': term(oracle), 'model': term(model),
+            'nontrivial': changed > 0 and len(dm._cols) > 0,
+            'sig': json.dumps(inp2, sort_keys=True, default=str),
+            'tags': ['reser', 'reser-' + what, 'mode-' + mode, 'rows%d' % min(len(dm), 9)] + self._tags(dm, inp)
+                    + ['edit-' + edit_name(e) for e in edits]
+                    + ['edits-changed%d' % changed]
+                    + (['edit-failed'] if any(o.startswith('(Err') for o in outcomes) else [])
+                    + (['orig-malformed'] if any(st['problems'] for st in states) else []),
+        }
+
     # ------------------------------------------------------------ protocol
     def rerun(self, inp):
         with warnings.catch_warnings():
@@ -853,6 +1191,8 @@ class C17:
                     return self.run_pickle(inp)
                 if kind == 'json':
                     return self.run_json(inp)
+                if kind == 'reser':
+                    return self.run_reser(inp)
                 return self.run_pandas(inp)
             except Exception as e:      # noqa: BLE001
                 if self._stage == 'setup':
@@ -938,6 +1278,14 @@ class C17:
                 cases.append(self.rerun(dict(base, kind='json', t=t, warm=sub.randint(0, 2), deco=deco(),
                                              foreign=sub.random() < 0.35,
                                              perturb=self.gen_perturb(sub, r.pool[t], extra.get('series')), **extra)))
+            # the same object serialised, edited in place, serialised again (nothing else in between)
+            for t in ([order[0], order[-1]] if h % 2 == 0 else [order[h % len(order)]]):
+                cases.append(self.rerun(dict(base, kind='reser', t=t, warm=sub.randint(0, 2), deco=deco(),
+                                             foreign=sub.random() < 0.15, what=sub.choice(RESER_WHAT),
+                                             mode=MODES[mi % len(MODES)], jfirst=sub.random() < 0.7,
+                                             eseed=sub.randrange(1 << 30), nsels=sub.choice([0, 1, 1, 2]),
+                                             nedits=sub.choice([1, 1, 2, 2, 3]), **ser(big_ok=sub.random() < 0.2))))
+                mi += 1
             t = order[-1]
             cases.append(self.rerun(dict(base, kind='pandas', t=t, deco=deco(), foreign=sub.random() < 0.2, **ser())))
             if h % 2 == 0:
@@ -960,6 +1308,24 @@ class C17:
             l = inp.get(key) or []
             for i in range(len(l) - 1, -1, -1):
                 yield dict(inp, **{key: l[:i] + l[i + 1:]})
+        if inp.get('edits'):
+            f = inp['edits']
+            for i in range(len(f) - 1, -1, -1):
+                if len(f) > 1:
+                    yield dict(inp, edits=f[:i] + f[i + 1:])
+            if inp.get('what') in ('both', 'all'):
+                yield dict(inp, what='json')
+                yield dict(inp, what='pickle')
+        if inp.get('sels'):
+            # only selections no edit refers to (the positions of the others would shift)
+            refd = set()
+            for e in inp.get('edits') or []:
+                for v in (e.get('t2'), (e.get('addr') or {}).get('t2'),
+                          e['rhs'].get('t2') if isinstance(e.get('rhs'), dict) else None):
+                    if isinstance(v, int):
+                        refd.add(v)
+            if not any(v > 0 for v in refd):
+                yield dict(inp, sels=[])
         if inp.get('post'):
             p = inp['post']
             for i in range(len(p) - 1, -1, -1):
@@ -994,6 +1360,8 @@ class C17:
                                                        ' '.join(o['op'] for o in inp.get('follow') or []))
         if k == 'json':
             return 'json%s perturb %s' % (s, (inp.get('perturb') or {}).get('k'))
+        if k == 'reser':
+            return 'reser%s %s edits %s' % (s, inp.get('what'), ' '.join(edit_name(e) for e in inp.get('edits') or []))
         return k + s
 
 
